@@ -1,6 +1,6 @@
 (* C06 -- instances showing that the section hypotheses are satisfiable. *)
 From Coq Require Import ZArith Lia List.
-From V Require Import Base.Field C06.Miller C06.Laws C06.ExpAlgebra.
+From V Require Import Base.Field C06.Miller C06.Laws C06.ExpAlgebra C06.Bw6.
 Import ListNotations.
 Open Scope Z_scope.
 
@@ -23,3 +23,8 @@ Definition ex_pairs : list (option Z * (list Z * bool)) :=
 Lemma ex_additive :
   (forall P P' Q, (P + P') * Q = P * Q + P' * Q) /\ (forall P Q Q', P * (Q + Q') = P * Q + P * Q').
 Proof. split; intros; ring. Qed.
+
+(* six surviving BW6 pairs: (G1 value, first stream: 3 + 1 coefficients, second stream: 5 coefficients) *)
+Definition ex_bw6_pairs : list (Z * list Z * list Z) :=
+  [(2, [1; 2; 3; 4], [1; 0; 2; 1; 3]); (3, [2; 1; 0; 5], [2; 2; 1; 0; 1]); (1, [1; 1; 1; 1], [3; 1; 2; 2; 0]);
+   (5, [0; 2; 1; 1], [1; 1; 1; 1; 1]); (4, [3; 0; 2; 2], [0; 1; 0; 1; 2]); (2, [1; 3; 1; 0], [2; 0; 2; 0; 2])].
